@@ -87,7 +87,9 @@ VP_ENTRY vp_main_faithful_props()
     pn[i] = (i == 1 && vp_pick(2)) ? "q" : "p";
     bool dq = vp_pick(2);
     const char *qt = dq ? "\"" : "'";
-    if (vp_pick(2)) pv[i] = std::string(1, sym_where(dq ? is_dq_value : is_sq_value));      // every byte that does not end the value
+    unsigned vk = vp_pick(3);
+    if (vk == 0) pv[i] = "";                                                                  // an empty value is a value
+    else if (vk == 1) pv[i] = std::string(1, sym_where(dq ? is_dq_value : is_sq_value));      // every byte that does not end the value
     else { pv[i] = "\\"; pv[i] += qt; }                                                      // an escaped quote stays inside the value
     t += " "; t += pn[i]; t += ws; t += "="; t += ws; t += qt; t += pv[i]; t += qt;
   }
